@@ -102,6 +102,15 @@ Section Main.
     destruct H as (_ & H & _). exact H.
   Qed.
 
+  (** ... it raises exactly when an event repeats a cue or an outcome under the default policy *)
+  Theorem dict_duplicate_raises (p : params R) (es : list event) :
+    dict_run R rO radd rmul rsub p PNone es ([], ZZM.empty R) = None <-> prep_all PNone es = None.
+  Proof.
+    pose proof (dict_from_zero p PNone es) as H.
+    destruct (dict_run R rO radd rmul rsub p PNone es ([], ZZM.empty R)) as [[a s]|], (prep_all PNone es);
+      split; intros E; try discriminate; try reflexivity; contradiction.
+  Qed.
+
   Notation kget := (kget R rO).
   Notation kset := (kset R).
   Notation k_run_trace n := (run_trace R rO radd rmul rsub (kstore R) (kget n) (kset n)).
